@@ -365,7 +365,7 @@ PROPS = {
              'other supplied provider. stream dbgneutral: a chain without any *Debugging parameter, paired with the same chain with such a parameter added '
              'to one provider; monitor: same validity, the same other providers included, same results and call log once the added argument is dropped. '
              'stream debuglock: 2-11 goroutines each Bind three chains, a chosen subset failing (missing provider), under the race detector with yield perturbation '
-             'at the lock hooks; observed: all Binds return (watchdog), failing ones report an error whose DetailedError starts with the plain text and mentions '
+             'at the lock hooks; observed: all Binds return (watchdog), failing ones report an error (every other one wrapped by the caller with %w) whose DetailedError starts with the plain text and mentions '
              'no other goroutine\'s collection, succeeding ones yield working chains',
         level_text='Theorem debug_lock_no_deadlock_no_crosstalk (interleaving semantics of the RWMutex protocol of bindFast / captureDoBindDebugging: for any '
                    'mix of failing and succeeding Binds and every schedule some unfinished Bind can always step, and every line logged while debugging is on '
